@@ -208,6 +208,7 @@ partial def thread (t : Nat) : M Unit := do
   | "ALLOC", _ => thread t
   | "FREE", _ => thread t
   | "SOLO", _ => do cover "solo_probe"; thread t
+  | "SOLOMID", _ => do cover "solo_mid"; thread t
   | "SPAWN", _ => thread t
   | "INIT", [n] => do
       -- cds_wfs_node_init: plain store node->next = NULL (reported by the scenario, or by the
